@@ -1,6 +1,7 @@
 import PhyVerif.Model.C09
 import PhyVerif.Model.C09b
 import PhyVerif.Model.C12
+import PhyVerif.Model.C08
 /-!
 Model of the value side of the ALF export (property C14), phylib/io/alf.py:
 `make_channel_objects` (per-probe raw channel indices), `make_template_and_spikes_objects` (nearest
@@ -88,12 +89,16 @@ def exportAmpFiles (dT dC : Data) (f : Rat) (indsT indsC : List (List Nat)) : Am
 def exportPeakToTrough (wfsC : List Mat) (rate : Rat) (nanIdx : List Nat) : List (Option Rat) :=
   (waveformDurations wfsC rate).zipIdx.map fun p => if nanIdx.contains p.2 then none else some p.1
 
-/-! ### which ids are blanked: the ids WITHOUT SPIKES, computed from the spike assignment
+/-! ### which ids are blanked
 
-The property says "NaN for ids without spikes".  The exporter blanks the ids of `nan_idx`; where that list comes from
-is part of the mechanism: `np.setdiff1d(np.arange(n_clusters), cluster_ids)` with `cluster_ids =
-_unique(spike_clusters)` (EphysAlfCreator.__init__).  (Before that repair the list was `model.nan_idx`, which
-model.py:425 leaves EMPTY when nothing was curated: depth and duration of a template without spikes were numbers.) -/
+The property says of the cluster DEPTHS "NaN for ids without spikes".  `make_depths` blanks
+`np.setdiff1d(np.arange(n_clusters), cluster_ids)` with `cluster_ids = _unique(spike_clusters)`: the ids without
+spikes, computed from the spike assignment, curated or not.  (Before that repair it blanked `model.nan_idx`, which
+model.py:425 leaves EMPTY when nothing was curated: the depth of a template without spikes was a number.)
+The DURATIONS (`make_cluster_objects`) are blanked on `model.nan_idx` — NaN for the ids without spikes of a CURATED
+dataset (their cluster waveform is all zero, C08), while for an un-curated dataset a template without spikes keeps
+the peak-to-trough time of its own waveform (upstream `test_alf.py::test_creator` pins five durations for five
+templates the first of which has no spike; the statement attaches no NaN clause to durations). -/
 
 /-- ids below `n` that no spike is assigned to -/
 def spikelessIds (n : Nat) (sc : List Nat) : List Nat := (List.range n).filter fun c => !sc.contains c
@@ -103,9 +108,15 @@ from the output directory, `sc` = `model.spike_clusters` -/
 def exportClusterDepths (ys : List Rat) (peaks sc : List Nat) : List (Option Rat) :=
   clusterDepths ys peaks (spikelessIds peaks.length sc)
 
-/-- `clusters.peakToTrough` as written by `make_cluster_objects` (alf.py:184-190) -/
-def exportDurations (wfsC : List Mat) (rate : Rat) (sc : List Nat) : List (Option Rat) :=
-  exportPeakToTrough wfsC rate (spikelessIds wfsC.length sc)
+/-- `model.nan_idx` for dense templates (model.py:418-428): `get_merge_map()[1]` (the C08 model) when anything was
+curated, `[]` otherwise -/
+def modelNanIdx (st sc : List Nat) : List Nat :=
+  if sc = st then [] else C08.nanIdx (C08.mergeMap st sc)
+
+/-- `clusters.peakToTrough` as written by `make_cluster_objects` (alf.py:184-190): `st`/`sc` =
+`model.spike_templates` / `model.spike_clusters` -/
+def exportDurations (wfsC : List Mat) (rate : Rat) (st sc : List Nat) : List (Option Rat) :=
+  exportPeakToTrough wfsC rate (modelNanIdx st sc)
 
 /-- what `get_depths` reads of the feature store: `sparse_features.data[:, :, 0]` (one row per STORED spike) and
 `sparse_features.cols` (one row per template) -/
